@@ -1,6 +1,6 @@
 import H264.RefNal
 import H264.RbspInit
-import H264.C20
+import H264.C20Hdr
 /-! # C15 — A NAL over head + tail chunks reads as their concatenation; partial NALs block
 
 Model: `Rbsp.Chunked` = `RefNalReader { cur, tail, complete }` with `read` / `fill_buf` / `consume`; a clone is the same
